@@ -118,7 +118,12 @@ func main() {
 	budget := flag.Duration("budget", 0, "wall-clock budget; a run that hits it reports exhaustive:false")
 	verbose := flag.Bool("v", false, "verbose")
 	part := flag.String("part", "", "run only one part of a property (debugging)")
+	confload := flag.String("confload", "", "child mode: run config.Load on the file and print the effective configuration as JSON (exit status 1 = refused)")
 	flag.Parse()
+	if *confload != "" {
+		confLoadChild(*confload)
+		return
+	}
 	runtime.GOMAXPROCS(1)
 	if !*verbose {
 		log.SetOutput(io.Discard)
